@@ -642,13 +642,26 @@ func FuncName(pkg *types.Package, name string, recv *types.Var, org bool) string
 		named, ptr := recvNamed(recv.Type())
 		var tName string
 		if named != nil {
+			foreign := false
 			if org {
 				tName = named.Obj().Name()
 			} else {
-				tName = abi.NamedName(named)
+				// Function-local types may share their identifier: keep the scope
+				// indices that the type descriptor name carries as well.
+				tName = abi.NamedName(named) + abi.ScopeIndices(named.Obj())
+				// go/ssa's package-less synthetic functions ($bound, $thunk, method
+				// wrappers) are emitted into the referring package pkg. Keep the
+				// package that declares the receiver type in their name, otherwise
+				// wrappers for same-named types of different packages collide.
+				if tp := named.Obj().Pkg(); tp != nil && pkg != nil && PathOf(tp) != PathOf(pkg) {
+					tName = PathOf(tp) + "." + tName
+					foreign = true
+				}
 			}
 			if ptr {
 				tName = "(*" + tName + ")"
+			} else if foreign {
+				tName = "(" + tName + ")"
 			}
 		} else {
 			tName = types.TypeString(recv.Type(), PathOf)
